@@ -137,6 +137,8 @@ var recvEffects = map[string]recvEffect{
 	"InMemoryRepository.heap.Len":       {"GoMem.heapLen", "pure", false},
 	"InMemoryRepository.heap.Peek":      {"GoMem.heapPeek", "pure", false},
 	"InMemoryRepository.orderedMap.Pairs": {"GoMem.omapPairs", "pure", false},
+	"volatileTaskRepo.VolatileTask.Peek":  {"GoVol.peek", "pure", false},
+	"volatileTaskRepo.VolatileTask.Pop":   {"GoVol.pop", "pure", false},
 	// the scheduler (scheduler/scheduler.go): every call on its repository / dispatcher / event queue is one action of
 	// the program-counter automaton Gk.World (Gk/GenGlueSched.lean)
 	"Scheduler.repo.LastTimerUpdateError": {"GoSched.repoLastTimerUpdateError", "pair", false},
@@ -184,6 +186,12 @@ var inplaceFuncs = map[string]string{"slices.SortStableFunc": "Go.slices_SortSta
 
 // pointer fields that may be nil: an Option in the glue type
 var optPtrFields = map[string]bool{"Scheduler.lastTask": true}
+
+// fields of the receiver that are Go maps with non-string values (an association list in Lean)
+var mapFields = map[string]bool{"volatileTaskRepo.record": true}
+
+// (promoted) methods of the receiver that only ask an oracle
+var recvPureMethods = map[string]string{"volatileTaskRepo.Peek": "GoVol.peek", "volatileTaskRepo.Pop": "GoVol.pop"}
 
 var refStore = map[string]string{"InMemoryRepository": "GoMem.storeTask"}
 
@@ -762,6 +770,11 @@ func (t *translator) trCall(c *ast.CallExpr) string {
 		}
 		if rc, key, ok := t.recvFieldKey(c); ok && recvEffects[key].kind == "pure" {
 			return "(" + recvEffects[key].lean + " " + leanIdent(t.recv) + t.trArgs(rc.Args) + ")"
+		}
+		if id, ok := f.X.(*ast.Ident); ok && t.recv != "" && id.Name == t.recv {
+			if g, ok := recvPureMethods[t.recvType+"."+f.Sel.Name]; ok {
+				return "(" + g + " " + leanIdent(t.recv) + t.trArgs(c.Args) + ")"
+			}
 		}
 		// a call of another translated method of the receiver's own type: fully qualified (the receiver type may be an
 		// abbreviation of a glue type, on which field notation would look in the glue type's namespace)
@@ -1353,6 +1366,15 @@ func (t *translator) hasEffectCall(e ast.Expr) bool {
 	return found
 }
 
+func (t *translator) isMapField(e ast.Expr) bool {
+	sel, ok := e.(*ast.SelectorExpr)
+	if !ok {
+		return false
+	}
+	id, ok := sel.X.(*ast.Ident)
+	return ok && t.recv != "" && id.Name == t.recv && mapFields[t.recvType+"."+sel.Sel.Name]
+}
+
 func isMutexStmt(e ast.Expr, recv string) bool {
 	c, ok := e.(*ast.CallExpr)
 	if !ok {
@@ -1483,6 +1505,13 @@ func (t *translator) trSimple(s ast.Stmt, d int) string {
 		}
 		if len(x.Lhs) == 2 && len(x.Rhs) == 1 {
 			// v, ok := m[k]
+			if ix, ok := x.Rhs[0].(*ast.IndexExpr); ok && t.isMapField(ix.X) {
+				a, b := exprString(x.Lhs[0]), exprString(x.Lhs[1])
+				if a == "_" {
+					a = "_v"
+				}
+				return ind(d) + "let (" + leanIdent(a) + ", " + leanIdent(b) + ") := Go.mapLookupT " + t.trExpr(ix.X) + " " + t.trExpr(ix.Index) + "\n"
+			}
 			if ix, ok := x.Rhs[0].(*ast.IndexExpr); ok {
 				a, b := exprString(x.Lhs[0]), exprString(x.Lhs[1])
 				if a == "_" {
@@ -1515,6 +1544,12 @@ func (t *translator) trSimple(s ast.Stmt, d int) string {
 		}
 		if x.Tok != token.ASSIGN && x.Tok != token.DEFINE {
 			t.fail(x, "unsupported assignment operator %s", x.Tok)
+		}
+		if len(x.Lhs) == 1 && len(x.Rhs) == 1 {
+			if ix, ok := x.Lhs[0].(*ast.IndexExpr); ok && t.isMapField(ix.X) {
+				root, upd := t.lhsUpdate(ix.X, "(Go.mapSetT "+t.trExpr(ix.X)+" "+t.trExpr(ix.Index)+" "+t.trExpr(x.Rhs[0])+")")
+				return ind(d) + "let " + root + " := " + upd + "\n"
+			}
 		}
 		var b strings.Builder
 		if len(x.Lhs) == 1 {
@@ -1566,6 +1601,12 @@ func (t *translator) trSimple(s ast.Stmt, d int) string {
 		}
 		return b.String()
 	case *ast.ExprStmt:
+		if c, ok := x.X.(*ast.CallExpr); ok {
+			if id, ok := c.Fun.(*ast.Ident); ok && id.Name == "delete" && len(c.Args) == 2 && t.isMapField(c.Args[0]) {
+				root, upd := t.lhsUpdate(c.Args[0], "(Go.mapDeleteT "+t.trExpr(c.Args[0])+" "+t.trExpr(c.Args[1])+")")
+				return ind(d) + "let " + root + " := " + upd + "\n"
+			}
+		}
 		if c, ok := x.X.(*ast.CallExpr); ok {
 			if sel, ok := c.Fun.(*ast.SelectorExpr); ok {
 				if lean, ok := inplaceFuncs[exprString(sel)]; ok && len(c.Args) >= 1 {
@@ -1730,6 +1771,13 @@ func (t *translator) callsMutating(body *ast.BlockStmt, recv, rt string) bool {
 				found = true
 			}
 		}
+		if id, ok := c.Fun.(*ast.Ident); ok && id.Name == "delete" && len(c.Args) == 2 {
+			if sel, ok := c.Args[0].(*ast.SelectorExpr); ok {
+				if x, ok := sel.X.(*ast.Ident); ok && x.Name == recv && mapFields[rt+"."+sel.Sel.Name] {
+					found = true
+				}
+			}
+		}
 		if sel, ok := c.Fun.(*ast.SelectorExpr); ok {
 			if id, ok := sel.X.(*ast.Ident); ok && id.Name == recv && t.mutating[rt+"."+sel.Sel.Name] {
 				found = true
@@ -1842,6 +1890,9 @@ func assignsTo(body *ast.BlockStmt, recv string) bool {
 			e := l
 			for {
 				switch x := e.(type) {
+				case *ast.IndexExpr:
+					e = x.X
+					continue
 				case *ast.SelectorExpr:
 					e = x.X
 					continue
@@ -2166,6 +2217,18 @@ func init() {
 			[]glItem{{kind: "lean", name: "abbrev CronStore := Gk.GoCron"}},
 			it(f, "func", "CronStore.stopTimer", "CronStore.resetTimer", "CronStore.LastTimerUpdateError", "CronStore.StartTimer",
 				"CronStore.StopTimer", "CronStore.NextScheduled"),
+		),
+	})
+}
+
+func init() {
+	f := "scheduler/repository.go"
+	glUnits = append(glUnits, glUnit{
+		out: "Gk/Gen/Volatile.lean", ns: "Volatile", pre: []string{"Gk.GenGlueVol"},
+		items: cat(
+			[]glItem{{kind: "lean", name: "abbrev volatileTaskRepo := Gk.GoVol"}},
+			it(f, "func", "volatileTaskRepo.GetById", "volatileTaskRepo.GetNext", "volatileTaskRepo.MarkAsDispatched",
+				"volatileTaskRepo.MarkAsDone"),
 		),
 	})
 }
